@@ -75,6 +75,8 @@ def _build():
     jw = ('b2 is not None', lambda e: e.b(2) is not None)
     jor = ("a2 == 'x' or b2 is None", lambda e: e.a(2) == 'x' or e.b(2) is None)
     jif = ("True if b1 is None else a2 != 'x'", lambda e: True if e.b(1) is None else e.a(2) != 'x')
+    _add('updj[left|emptyB|NU]', Q(update=[('a1', 0, 'NU', lambda e: e.NU), ('a2', 1, 'b1', lambda e: e.b(1))], join=join('LEFT JOIN')), ['ks', 'ks'], [], quick=True, krange=2)
+    _add('updj[left|emptyB|w]', Q(update=[('a2', 1, "'u'", lambda e: 'u')], where=('b2 is None', lambda e: e.b(2) is None), join=join('LEFT JOIN')), ['ks', 'ks'], [], quick=True, krange=2)
     for kind in ('INNER JOIN', 'LEFT JOIN', 'JOIN'):
         for k in ('swap', 'NU'):
             upd = U[k] if k != 'swap' else [('a1', 0, 'b2', lambda e: e.b(2)), ('a2', 1, 'a1', lambda e: e.a(1))]
